@@ -53,15 +53,13 @@ type desc struct {
 	DecN    int      `json:"dec_n"`
 }
 
-func z(v int64) string {
-	if v < 0 {
-		return "(" + strconv.FormatInt(v, 10) + ")"
-	}
-	return strconv.FormatInt(v, 10)
+// 64-bit quantity as two 32-bit halves (primitive int literals on the Coq side)
+func hl(v uint64) string {
+	return strconv.FormatUint(v>>32, 10) + " " + strconv.FormatUint(v&0xffffffff, 10)
 }
 
 func smp(s sample) string {
-	return "mkS " + z(s.st) + " " + z(s.t) + " " + strconv.FormatUint(s.v, 10)
+	return "wS " + hl(uint64(s.st)) + " " + hl(uint64(s.t)) + " " + hl(s.v)
 }
 
 func smpList(ss []sample) string {
@@ -359,7 +357,7 @@ func genSTs(r *gen.Rand, ts []int64) ([]int64, string) {
 	case 4:
 		for i := range st {
 			st[i] = prev(i) + r.PickI64(0, 0, 0, 1, -3, 4, -4, 5, -31, 32, -32, 33, -255, 256, -256, 257, -2047, 2048, -2048, 2049,
-				-131071, 131072, 131073, -16777215, 16777216, 16777217, -(1<<55 - 1), 1 << 55, 1<<55 + 1, -(1 << 55))
+				-131071, 131072, 131073, -16777215, 16777216, 16777217, -(1<<55-1), 1<<55, 1<<55+1, -(1<<55))
 		}
 		return st, "jitter-edges"
 	case 5:
@@ -414,7 +412,6 @@ type result struct {
 	dec      []sample
 	decErr   bool
 	obs      []obs
-	unaligned bool // an XOR from-bytes re-open happened with a partially filled last byte (heuristic: always true for XOR from-bytes on a non-empty chunk)
 }
 
 var pool = chunkenc.NewPool()
@@ -525,8 +522,8 @@ func main() {
 	f := gallina.ParseFlags()
 	meta := gallina.NewMeta("C10", f.Seed, f.Tier)
 	meta.Rule = "corpus + seeded sequences per encoding (XOR, XOR2): timestamps increasing with delta-of-delta drawn from the bucket edges (13/14/17/20/64 bit, +-1), huge, arbitrary int64 and non-monotonic; values constant/counter/gauge/random bits/chosen xor windows/stale-NaN mixes/specials; start timestamps none/constant/late/jitter/edges/arbitrary/resets; appender re-obtained at random cuts (same object or from bytes); Next/Seek script. non-trivial = at least 3 samples and at least one non-zero delta-of-delta or value change; distinct by (encoding, samples, cuts, script)"
-	cf := &gallina.CaseFile{Dir: f.Out, Type: "case", PerShard: f.Count(40, 400),
-		Preamble: "From Coq Require Import List ZArith.\nFrom Verif Require Import lib.Int64 lib.Bits model.Xor corr.CorrC10.\nImport ListNotations.\nOpen Scope Z_scope.\n",
+	cf := &gallina.CaseFile{Dir: f.Out, Type: "case", PerShard: f.Count(31, 400),
+		Preamble: "From Coq Require Import List ZArith Uint63.\nFrom Verif Require Import lib.Int64 lib.Bits model.Xor corr.CorrC10.\nImport ListNotations.\nOpen Scope uint63_scope.\n",
 		Footer:   gallina.StdFooter}
 	id := 0
 	seen := map[string]bool{}
@@ -537,8 +534,13 @@ func main() {
 			all = append(all, sg.ss...)
 		}
 		res := runCase(enc, segs, acts)
+		fail := 0
+		if res.panicked {
+			fail = 1
+		}
 		if res.appErr {
-			panic("Appender() returned an error on a chunk written by the appender")
+			fail = 2
+			meta.Hit("appender-error")
 		}
 		encN, encS := 1, "XOR"
 		if enc == chunkenc.EncXOR2 {
@@ -558,7 +560,7 @@ func main() {
 		actIt := make([]string, len(acts))
 		for i, a := range acts {
 			if a.seek {
-				actIt[i] = "ASeek " + z(a.t)
+				actIt[i] = "wSeek " + hl(uint64(a.t))
 			} else {
 				actIt[i] = "ANext"
 			}
@@ -571,7 +573,7 @@ func main() {
 				obsIt[i] = "None"
 			}
 		}
-		term := fmt.Sprintf("mkCase %d %d %s %s %s %s %s %s %s", id, encN, gallina.List(segIt), gallina.Bool(res.panicked),
+		term := fmt.Sprintf("wCase %d %d %s %d %s %s %s %s %s", id, encN, gallina.List(segIt), fail,
 			bytesList(res.bytes), smpList(res.dec), gallina.Bool(res.decErr), gallina.List(actIt), gallina.List(obsIt))
 		key := term[strings.Index(term, " ")+1:]
 		key = key[strings.Index(key, " "):]
@@ -591,9 +593,12 @@ func main() {
 		}
 		xorFromBytes := false
 		if enc == chunkenc.EncXOR {
-			seenSamples := 0
+			seenSamples, reloaded := 0, false
 			for _, sg := range segs {
-				if sg.fromBytes && seenSamples > 0 && len(sg.ss) > 0 {
+				if sg.fromBytes && seenSamples > 0 {
+					reloaded = true
+				}
+				if reloaded && len(sg.ss) > 0 {
 					xorFromBytes = true
 				}
 				seenSamples += len(sg.ss)
@@ -642,7 +647,7 @@ func main() {
 		id++
 	}
 
-	encs := []chunkenc.Encoding{chunkenc.EncXOR}
+	encs := []chunkenc.Encoding{chunkenc.EncXOR, chunkenc.EncXOR2}
 
 	mk := func(ts []int64, vs []uint64, sts []int64) []sample {
 		ss := make([]sample, len(ts))
@@ -675,7 +680,7 @@ func main() {
 	}
 
 	// ---- seeded random histories
-	n := f.Count(360, 6000)
+	n := f.Count(200, 6000)
 	for i := 0; i < n; i++ {
 		r := gen.Fork(f.Seed, i)
 		enc := encs[i%len(encs)]
@@ -684,11 +689,11 @@ func main() {
 		case k < 3:
 			ln = r.Intn(4) + 1
 		case k < 15:
-			ln = r.Intn(120) + 3
+			ln = r.Intn(int(f.Count(30, 120))) + 3
 		case k < 19:
-			ln = r.Intn(400) + 100
+			ln = r.Intn(int(f.Count(90, 400))) + 40
 		default:
-			ln = r.Intn(int(f.Count(800, 3000))) + 200
+			ln = r.Intn(int(f.Count(200, 3000))) + 200
 		}
 		ts, tsMode := genTimestamps(r, ln)
 		ln = len(ts)
@@ -706,7 +711,8 @@ func main() {
 			ncuts = r.Intn(3) + 1
 		}
 		start := 0
-		for c := 0; c < ncuts && start < ln; c++ {
+		kind := false
+		for c := 0; c < ncuts; c++ {
 			cut := start + r.Intn(ln-start+1)
 			if r.Chance(1, 4) {
 				cut = int(r.PickI64(0, 1, 2, 3, 126, 127, 128, 129))
@@ -714,27 +720,16 @@ func main() {
 					cut = start
 				}
 			}
-			fromBytes := r.Chance(1, 2)
+			segs = append(segs, seg{fromBytes: kind, ss: all[start:cut]})
+			kind = r.Chance(1, 2)
 			if enc == chunkenc.EncXOR {
 				// the classic XOR appender does not restore the write position after FromData
 				// (see notes/C10.md); keep these histories to a small share of the cases
-				fromBytes = r.Chance(1, 12)
+				kind = r.Chance(1, 12)
 			}
-			segs = append(segs, seg{fromBytes: len(segs) > 0 && segs[len(segs)-1].fromBytes, ss: all[start:cut]})
-			// the kind belongs to the *next* segment: store it there
-			segs[len(segs)-1].fromBytes = false
-			if len(segs) > 1 {
-				segs[len(segs)-1].fromBytes = pendingKind
-			}
-			pendingKind = fromBytes
 			start = cut
 		}
-		last := seg{ss: all[start:]}
-		if len(segs) > 0 {
-			last.fromBytes = pendingKind
-		}
-		segs = append(segs, last)
-		pendingKind = false
+		segs = append(segs, seg{fromBytes: kind, ss: all[start:]})
 		emit(enc, segs, genActs(r, ts), desc{TsMode: tsMode, ValMode: valMode, StMode: stMode})
 	}
 
@@ -758,5 +753,3 @@ func main() {
 	cf.Flush()
 	meta.Write(f.Out)
 }
-
-var pendingKind bool
